@@ -2268,9 +2268,12 @@ func CreateCertificateRequest(rand io.Reader, template *CertificateRequest, sign
 
 	digest := tbsCSRContents
 	switch template.SignatureAlgorithm {
-	case SM2WithSM3, SM2WithSHA1, SM2WithSHA256, UnknownSignatureAlgorithm:
+	case SM2WithSM3, SM2WithSHA1, SM2WithSHA256:
 		break
 	default:
+		if _, ok := signer.Public().(*sm2.PublicKey); ok {
+			break // an SM2 signer always receives the raw TBS
+		}
 		h := hashFunc.New()
 		h.Write(tbsCSRContents)
 		digest = h.Sum(nil)
